@@ -55,6 +55,9 @@ pub enum LoopOp {
     Unstall { node: u16 },
     /// Every node that is up fetches the blocks it misses from the most advanced node.
     Fetch,
+    /// The network delivers an old copy again: the `msg`-th message ever put on the wire reaches node `to` once more
+    /// (duplication, replay of stale views).
+    Replay { msg: u16, to: u16 },
 }
 
 #[derive(Debug, Clone, Serialize, Deserialize, PartialEq, Hash)]
@@ -108,7 +111,7 @@ pub fn gen_case(ch: &mut Choices, quick: bool) -> LoopCase {
     };
     let mut ops = vec![];
     for _ in 0..len {
-        let op = match ch.below(24) {
+        let op = match ch.below(26) {
             0..=6 => LoopOp::Tick { ms: ms(ch) },
             7 | 8 => LoopOp::Skew { node: node(ch), ms: ms(ch) },
             9..=11 => {
@@ -123,6 +126,7 @@ pub fn gen_case(ch: &mut Choices, quick: bool) -> LoopCase {
             19 | 20 => LoopOp::Restart { node: node(ch) },
             21 => LoopOp::Stall { node: node(ch) },
             22 => LoopOp::Unstall { node: node(ch) },
+            23 => LoopOp::Replay { msg: ch.raw(), to: node(ch) },
             _ => LoopOp::Fetch,
         };
         ops.push(op);
@@ -491,6 +495,14 @@ impl LoopWorld {
                 }
             }
             LoopOp::Fetch => self.fetch().await,
+            LoopOp::Replay { msg, to } => {
+                if !self.log.is_empty() {
+                    let m = self.log[common::pick_index(*msg, self.log.len())].msg.clone();
+                    if let Some(node) = self.nodes[pick(*to)].as_mut() {
+                        Self::hand_over(node, &m, &mut self.delivered, &mut self.lost);
+                    }
+                }
+            }
         }
         self.route().await;
         Ok(())
@@ -765,4 +777,4 @@ pub fn check(case: &LoopCase, st: &mut Stats, oracle: Oracle) -> Result<(), Stri
     result
 }
 
-pub const DESCRIPTION: &str = "whole replicas: every validator that runs is a real bft::Config::run (real StateMachine::run loop with its view timer and the view-0 bootstrap, real proposer task, real create_input_channel) over a real EngineManager; the harness is the network and the operator: generated prefix of {clock ticks for all / for one node (drift), partitions, periodic loss by message kind, held-back and reversed backlogs, kill at a quiescent point, kill inside the k-th next durable write (applied / lost), restart from durable state, stalled persistence, block fetching}, with up to f weight of validators silent for good; then the network heals (reliable delivery, block fetching from the most advanced node, clocks ticking with generated granularity and per-node phase offsets)";
+pub const DESCRIPTION: &str = "whole replicas: every validator that runs is a real bft::Config::run (real StateMachine::run loop with its view timer and the view-0 bootstrap, real proposer task, real create_input_channel) over a real EngineManager; the harness is the network and the operator: generated prefix of {clock ticks for all / for one node (drift), partitions, periodic loss by message kind, held-back and reversed backlogs, replays of old copies, kill at a quiescent point, kill inside the k-th next durable write (applied / lost), restart from durable state, stalled persistence, block fetching}, with up to f weight of validators silent for good; then the network heals (reliable delivery, block fetching from the most advanced node, clocks ticking with generated granularity and per-node phase offsets)";
